@@ -2,6 +2,7 @@
 from harness.oracles import common, fixprops
 
 LEVEL = "exploration"
+SEED_SPACE = {"quick": 32, "thorough": 4}
 RULE = (
     "cases = (VHDL text, style, configuration): every fixture as is under the default and jcl styles, plus Hypothesis-drawn meaning-preserving "
     "re-layouts (levels 1-4: whitespace/case, line split/join, comments at line breaks, comments in whitespace gaps) of fixtures under style in "
